@@ -313,7 +313,52 @@ def new_stats():
                 trivial=0, max_trace=0)
 
 
+# z3.simplify normalises commutative operators by AST id; ids of dead terms are recycled, so the SAME
+# Python computation can simplify differently in a re-execution and take another number of branch
+# calls (observed).  While one shape is explored, term releases are therefore deferred: identical
+# terms are then the identical hash-consed node in every re-execution and simplification is stable.
+_DEFERRED = [None]
+_orig_ast_del = z3.AstRef.__del__
+
+
+def _deferred_del(self):
+    d = _DEFERRED[0]
+    if d is None:
+        return _orig_ast_del(self)
+    try:
+        if self.ast is not None and self.ctx.ref() is not None:
+            d.append((self.ctx, self.as_ast()))
+            self.ast = None
+    except Exception:
+        pass
+
+
+z3.AstRef.__del__ = _deferred_del
+
+
+def _release_deferred(lst):
+    import z3.z3core as zc
+    for cx, a in lst:
+        try:
+            zc.Z3_dec_ref(cx.ref(), a)
+        except Exception:
+            pass
+    del lst[:]
+
+
 def explore(fn, stats=None, max_paths=4000, timeout_ms=60000, concretize_cap=300):
+    outer = _DEFERRED[0]
+    mine = [] if outer is None else outer
+    _DEFERRED[0] = mine
+    try:
+        return _explore(fn, stats, max_paths, timeout_ms, concretize_cap)
+    finally:
+        if outer is None:
+            _DEFERRED[0] = None
+            _release_deferred(mine)
+
+
+def _explore(fn, stats=None, max_paths=4000, timeout_ms=60000, concretize_cap=300):
     """Run fn(ctx) on every feasible path.  fn performs its own ctx.check() calls.
     Returns (stats, results) where results is the list of fn return values per completed path.
     Raises Violation / Inconclusive."""
